@@ -7,7 +7,8 @@ import random
 ID = "C05"
 LEVEL = "exploration"
 BUDGET = {"quick": 50, "thorough": 900}
-FLOOR = {"quick": 300, "thorough": 3000}
+QUICK_CASES = 5000  # generator items in the quick tier (fixed amount of work; BUDGET is then only a safety cap)
+FLOOR = {"quick": 1500, "thorough": 3000}
 TIMEOUT = 60
 REQUIRED_OBS = ["runs_observed", "holds_started", "false_holds_started", "wait_until_returns", "evaluations_modelled"]
 RULE = (
